@@ -192,7 +192,7 @@ def order_rule(f):
 MB = 'graph::GraphLike::make_bipartite'
 
 
-def bipartite_rule(f):
+def bipartite_rule(f, facts_fns=()):
     """[(slot, ok, msg)]: every edge that make_bipartite removes is replaced by a two-edge path through a fresh spider of the opposite colour, on every path;
     only same-typed pairs are split; the fresh spider is phase-free."""
     res = []
@@ -235,12 +235,18 @@ def bipartite_rule(f):
     # only same-typed pairs; opposite colour; phase-free
     pm = hir.parent_map(f['hir'])
     rms = [n for n in hir.nodes(loops[0]['body']) if is_ev(n) and n['name'] == 'remove_edge']
-    same = False
+    same = None
+    opaque = False
     for c in paths.dominating_conds(rms[0], pm):
-        if c[0] == 'cond' and c[2]:
+        if c[0] == 'cond':
             e = hir.strip(c[1])
-            if e.get('k') == 'Binary' and e['op'] == 'Eq' and 'type' in hir.pp(e):
-                same = True
+            if e.get('k') == 'Binary' and e['op'] in ('Eq', 'Ne') and 'type' in hir.pp(e):
+                if (e['op'] == 'Eq') == bool(c[2]):
+                    same = True
+            elif any((hir.callee(x) or '') in facts_fns for x in hir.calls(e)):
+                opaque = True
+    if same is None and not opaque:
+        same = False
     res.append(('only-same-coloured-neighbours', same, 'an edge may be split only when both ends have the same type'))
     tbl = {}
     for m in hir.find(loops[0]['body'], 'Match'):
@@ -263,25 +269,37 @@ def bipartite_rule(f):
     return res
 
 
-def bare_wire_rule(fdw, fon):
-    """boundaries that are not attached to a spider take no part: only spiders are collected as boundary-adjacent, and such boundaries are left out of the node order"""
+def _type_vs_b(fns):
+    """all comparisons of a vertex type with VType::B in the given function bodies: list of 'eq' / 'ne' (effective, i.e. `!(t == B)` is 'ne' only syntactically: both spellings are listed as written)"""
+    out = []
+    for g in fns:
+        for n in hir.nodes(g['hir']):
+            if n.get('k') == 'Binary' and n['op'] in ('Eq', 'Ne'):
+                for a, b in ((n['l'], n['r']), (n['r'], n['l'])):
+                    if hir.def_path(hir.strip(b)) == B and ('vertex_type' in hir.pp(a) or 'Type' in (hir.strip(a).get('ty') or '')):
+                        out.append('ne' if n['op'] == 'Ne' else 'eq')
+            if n.get('k') == 'Match' and 'VType' in (hir.strip(n['scrut']).get('ty') or ''):
+                for a in n['arms']:
+                    if (hir.pat_ctor(a['pat']) or hir.pp_pat(a['pat'])).endswith('::B') or hir.pp_pat(a['pat']) == 'B':
+                        out.append('eq')
+    return out
+
+
+def bare_wire_rule(facts, fdw, fon):
+    """boundaries that are not attached to a spider take no part: only spiders are collected as boundary-adjacent, and such boundaries are left out of the node order.
+    Presence rules, evaluated over the function and the local helpers it calls."""
+    from .. import hfacts
     res = []
-    pm = hir.parent_map(fdw['hir'])
-    pushes = [c for c in hir.calls(fdw['hir']) if c.get('k') == 'MethodCall' and c['name'] == 'push' and hir.local_name(c['recv']) == 'outputs']
-    ok = False
-    for c in pushes:
-        for d in paths.dominating_conds(c, pm):
-            if d[0] == 'cond':
-                r = _cmp_type_b(d[1], [hir.local(c['args'][0])[1]] if hir.local(c['args'][0]) else [])
-                if (r == ['ne'] and d[2]) or (r == ['eq'] and not d[2]):
-                    ok = True
-    res.append(('boundary-adjacent-are-spiders', ok and len(pushes) == 1, 'the vertices collected as boundary-adjacent must be spiders (`vertex_type(w) != B`): with a bare wire the far boundary is counted as a spider, the block sizes no longer add up (subtraction overflow)'))
-    # ordered_nodes: the vertex list excludes boundaries without a spider neighbour
+    cmps = _type_vs_b([fdw] + hfacts.local_callees(facts, fdw))
+    # one comparison selects the boundaries (== B), another one must exclude boundaries among their neighbours (!= B, or == B negated/else-branch)
+    ok = len(cmps) >= 2 and 'ne' in cmps or cmps.count('eq') >= 2
+    res.append(('boundary-adjacent-are-spiders', bool(ok), 'the vertices collected as boundary-adjacent must be spiders (a second type test against B, on the neighbour): with a bare wire the far boundary is counted as a spider, the block sizes no longer add up (subtraction overflow); type tests found: %s' % cmps))
     excl = False
-    for n in hir.nodes(fon['hir']):
-        if n.get('k') == 'Closure':
-            txt = hir.pp(n['body'])
-            if 'neighbors' in txt and 'vertex_type' in txt and ('any' in txt or 'all' in txt):
+    for g in [fon] + hfacts.local_callees(facts, fon):
+        for n in hir.nodes(g['hir']):
+            if n.get('k') == 'MethodCall' and n['name'] in ('any', 'all') and 'neighbors' in hir.pp(n['recv']) and _type_vs_b([{'hir': n}]):
+                excl = True
+            if n.get('k') == 'For' and 'neighbors' in hir.pp(n['iter']) and _type_vs_b([{'hir': n['body']}]):
                 excl = True
     res.append(('bare-boundaries-left-out', excl, 'a boundary whose neighbours are all boundaries must be left out of the node order (it would occupy a row of the identity block without a column)'))
     return res
@@ -333,7 +351,7 @@ def run(ck):
         ck.ob('R-SHAPE-blocks', DW + '/constraint-matrix', ok, ck.site(DW), msg, sample=sample)
     # D5: tables of pw
     for slot, ok, msg in web_tables(fpw):
-        ck.ob('R-TABLE-web', PW + '/' + slot, ok, ck.site(PW), msg)
+        ck.ob3('R-TABLE-web', PW + '/' + slot, ok, ck.site(PW), msg)
     ok, msg = collect_rule(f)
     if ok is None:
         ck.violation('R-PAIR-collect', DW + '/every-basis-vector', ck.site(DW), msg)
@@ -341,14 +359,14 @@ def run(ck):
         ck.ob('R-PAIR-collect', DW + '/every-basis-vector', ok, ck.site(DW), msg)
     # D6: make_bipartite (graph.rs, the first thing detection_webs does) and bare wires
     fmb = ck.fn(MB)
-    for slot, ok, msg in bipartite_rule(fmb):
+    for slot, ok, msg in bipartite_rule(fmb, ck.facts['fns']):
         if ok is None:
             ck.violation('R-PAIR-reroute', MB + '/' + slot, ck.site(MB), msg)
         else:
-            ck.ob('R-PAIR-reroute', MB + '/' + slot, ok, ck.site(MB), msg)
+            ck.ob3('R-PAIR-reroute', MB + '/' + slot, ok, ck.site(MB), msg)
     ck.ob('R-PAIR-reroute', DW + '/bipartite-first', bool(hir.stmts_of(f['hir'])) and any(c.get('k') == 'MethodCall' and c['name'] == 'make_bipartite' for s0 in hir.stmts_of(f['hir'])[:2] for c in hir.calls(s0)), ck.site(DW),
           'detection_webs must convert the diagram to bipartite form before anything else (the firing model needs every edge to join different colours)')
-    for slot, ok, msg in bare_wire_rule(f, on):
+    for slot, ok, msg in bare_wire_rule(ck.facts, f, on):
         ck.ob('R-DOMAIN-bare-wire', DW + '/' + slot, ok, ck.site(DW), msg)
     # key normalisation of PauliWeb: set_edge and edge use the same (min, max) key
     keys = {}
@@ -622,64 +640,101 @@ def block_rule(f):
 # ---------------------------------------------------------------- D5: pw() colour and Pauli tables
 
 def web_tables(fpw):
-    """[(slot, ok, msg)]: Z spiders fire into one edge set, X spiders into the other; both -> Y, X-only -> Z, Z-only -> X"""
+    """[(slot, ok, msg)]: Z spiders fire into one edge set, X spiders into the other; both -> Y, X-only -> Z, Z-only -> X.  ok None: shape not recognised."""
+    from .. import hfacts
     res = []
     role = {}
     pm = hir.parent_map(fpw['hir'])
     for n in hir.nodes(fpw['hir']):
         if n.get('k') == 'MethodCall' and n['name'] == 'insert' and hir.local(n['recv']):
-            for c in paths.dominating_conds(n, pm):
-                if c[0] == 'cond' and c[2]:
-                    e = hir.strip(c[1])
-                    if e.get('k') == 'Binary' and e['op'] == 'Eq':
-                        for x in (e['l'], e['r']):
-                            p = hir.def_path(hir.strip(x)) or ''
-                            if p in ('graph::VType::Z', 'graph::VType::X'):
-                                role.setdefault(p[-1], set()).add(hir.local(n['recv'])[1])
+            for expr, consts, member in hfacts.membership(n, pm):
+                if member and len(consts) == 1:
+                    c = next(iter(consts))
+                    if c in ('graph::VType::Z', 'graph::VType::X'):
+                        role.setdefault(c[-1], set()).add(hir.local(n['recv'])[1])
+    if not role:
+        return [('colour-sets', None, 'how firing Z / X spiders mark their edges was not recognised (no `set.insert(edge)` under a test of the spider colour)')]
     ok = set(role) == {'Z', 'X'} and all(len(v) == 1 for v in role.values()) and role['Z'] != role['X']
     res.append(('colour-sets', ok, 'edges at a firing Z spider and at a firing X spider must be collected in two different sets (found %s)' % {k: len(v) for k, v in role.items()}))
     if not ok:
         return res
     zs, xs = list(role['Z'])[0], list(role['X'])[0]
-    # incident-edge test
-    inc_ok = False
+    # incident-edge test: some && / || of two comparisons of the node with edge.0 and edge.1
+    inc_ok = None
     for n in hir.nodes(fpw['hir']):
-        if n.get('k') == 'Binary' and n['op'] == 'Or':
+        if n.get('k') == 'Binary' and n['op'] in ('Or', 'And'):
             parts = []
+            ops = set()
             for x in (n['l'], n['r']):
                 x = hir.strip(x)
-                if x.get('k') == 'Binary' and x['op'] == 'Eq':
-                    flds = [y['name'] for y in (hir.strip(x['l']), hir.strip(x['r'])) if y.get('k') == 'Field']
-                    parts += flds
-            if sorted(parts) == ['0', '1']:
+                if x.get('k') == 'Binary' and x['op'] in ('Eq', 'Ne'):
+                    ops.add(x['op'])
+                    parts += [y['name'] for y in (hir.strip(x['l']), hir.strip(x['r'])) if y.get('k') == 'Field']
+            if sorted(parts) == ['0', '1'] and ((n['op'] == 'Or' and ops == {'Eq'}) or (n['op'] == 'And' and ops == {'Ne'})):
                 inc_ok = True
+            elif sorted(parts) in (['0', '0'], ['1', '1']) and inc_ok is None:
+                inc_ok = False
     res.append(('incident-edges', inc_ok, 'a firing spider must mark every edge it is an endpoint of (`node == edge.0 || node == edge.1`)'))
-    # Pauli table
+    # Pauli table: entries (in Z-set, in X-set) -> letter, from every set_edge call (the letter may be a local defined by an if-expression)
     table = {}
+    unknown = False
+    lets = {x['pat']['id']: x['init'] for x in hir.nodes(fpw['hir']) if x.get('k') == 'Let' and x['pat'].get('k') == 'Bind' and x.get('init') is not None}
+
+    def contains_fact(e, evar):
+        e = hir.strip(e)
+        if e.get('k') == 'MethodCall' and e['name'] == 'contains' and hir.local(e['recv']) and hir.local(e['recv'])[1] in (zs, xs):
+            a = hir.local(hir.strip(e['args'][0]))
+            if a and a[1] == evar:
+                return hir.local(e['recv'])[1]
+        return None
     for n in hir.nodes(fpw['hir']):
-        if n.get('k') == 'MethodCall' and n['name'] == 'set_edge' and len(n['args']) == 3:
-            pauli = (hir.def_path(hir.strip(n['args'][2])) or '?').rsplit('::', 1)[-1]
-            mem = {zs: None, xs: None}
-            evar = None
-            for c in paths.dominating_conds(n, pm):
-                if c[0] == 'loop' and c[1].get('k') == 'For':
-                    it = hir.strip(c[1]['iter'])
-                    while it.get('k') == 'MethodCall' and it['name'] in ('iter', 'into_iter'):
-                        it = hir.strip(it['recv'])
-                    l = hir.local(it)
-                    if l and l[1] in mem and evar is None:
-                        mem[l[1]] = True
-                        evar = hir.bindings(c[1]['pat'])[0][1] if hir.bindings(c[1]['pat']) else None
-            for c in paths.dominating_conds(n, pm):
-                if c[0] == 'cond':
-                    e = hir.strip(c[1])
-                    if e.get('k') == 'MethodCall' and e['name'] == 'contains' and hir.local(e['recv']) and hir.local(e['recv'])[1] in mem:
-                        a = hir.local(hir.strip(e['args'][0]))
-                        if a and a[1] == evar:
-                            mem[hir.local(e['recv'])[1]] = bool(c[2])
-            table.setdefault((mem[zs], mem[xs]), set()).add(pauli)
+        if not (n.get('k') == 'MethodCall' and n['name'] == 'set_edge' and len(n['args']) == 3):
+            continue
+        mem = {zs: None, xs: None}
+        evar = None
+        for c in paths.dominating_conds(n, pm):
+            if c[0] == 'loop' and c[1].get('k') == 'For':
+                it = hir.strip(c[1]['iter'])
+                while it.get('k') == 'MethodCall' and it['name'] in ('iter', 'into_iter'):
+                    it = hir.strip(it['recv'])
+                l = hir.local(it)
+                if l and l[1] in mem and evar is None:
+                    mem[l[1]] = True
+                    evar = hir.bindings(c[1]['pat'])[0][1] if hir.bindings(c[1]['pat']) else None
+        for c in paths.dominating_conds(n, pm):
+            if c[0] == 'cond':
+                w = contains_fact(c[1], evar)
+                if w is not None:
+                    mem[w] = bool(c[2])
+        arg = hir.strip(n['args'][2])
+        variants = []
+        d = hir.def_path(arg)
+        if d and arg.get('k') == 'Path' and arg['res'].get('k') != 'Local':
+            variants.append((dict(mem), d.rsplit('::', 1)[-1]))
+        elif hir.local(arg) and hir.local(arg)[1] in lets and hir.strip(lets[hir.local(arg)[1]]).get('k') == 'If':
+            iff = hir.strip(lets[hir.local(arg)[1]])
+            w = contains_fact(iff['cond'], evar)
+            tv = hir.def_path(hir.strip(hir.stmts_of(iff['then'])[-1])) if hir.stmts_of(iff['then']) else None
+            ev_ = hir.def_path(hir.strip(hir.stmts_of(iff['else'])[-1])) if iff.get('else') and hir.stmts_of(iff['else']) else None
+            if w is not None and tv and ev_:
+                m1 = dict(mem)
+                m1[w] = True
+                m2 = dict(mem)
+                m2[w] = False
+                variants += [(m1, tv.rsplit('::', 1)[-1]), (m2, ev_.rsplit('::', 1)[-1])]
+            else:
+                unknown = True
+        else:
+            unknown = True
+        for m_, letter in variants:
+            table.setdefault((m_[zs], m_[xs]), set()).add(letter)
     want = {(True, True): {'Y'}, (False, True): {'Z'}, (True, False): {'X'}}
-    res.append(('pauli-table', table == want, 'edge operators must be: marked by Z and X spiders -> Y, by X spiders only -> Z, by Z spiders only -> X; found %s (key = (in Z-set, in X-set), None = not tested)' % {k: sorted(v) for k, v in table.items()}))
+    if unknown or not table or any(None in k for k in table):
+        # a letter whose membership conditions are not fully known cannot be judged
+        definite_bad = any(table.get(k) and table[k] != v for k, v in want.items() if k in table)
+        res.append(('pauli-table', False if definite_bad else None, 'edge operators must be: marked by Z and X spiders -> Y, by X spiders only -> Z, by Z spiders only -> X; found %s (key = (in Z-set, in X-set), None = not tested)' % {k: sorted(v) for k, v in table.items()}))
+    else:
+        res.append(('pauli-table', table == want, 'edge operators must be: marked by Z and X spiders -> Y, by X spiders only -> Z, by Z spiders only -> X; found %s (key = (in Z-set, in X-set))' % {k: sorted(v) for k, v in table.items()}))
     return res
 
 
